@@ -10,11 +10,11 @@ import (
 	"net"
 	"os"
 	"reflect"
+	"strings"
 	"sync"
 	"testing"
 	"testing/synctest"
 
-	"verif/harness/srvh"
 	"verif/harness/wire"
 
 	"github.com/rminnich/go9p"
@@ -203,14 +203,6 @@ func readAnswer(offset uint64, count uint32) (uint64, int) {
 }
 func writeAnswer(offset uint64, data []byte) uint32 { return fnv32(data) ^ uint32(offset) ^ uint32(len(data))<<20 }
 
-func payloadBytes(p uint64, n int) []byte {
-	b := make([]byte, n)
-	for i := range b {
-		b[i] = byte(p >> (8 * (uint(i) % 8)))
-	}
-	return b
-}
-
 type callRec struct {
 	Op       string
 	Tag      uint16
@@ -224,6 +216,7 @@ type callRec struct {
 }
 
 type srvObs struct {
+	Progress [][2]int // few-cut segmentations: (offset sent so far, requests parsed) at quiescence after each write
 	Arrivals []uint16
 	Calls    []*callRec
 	Replies  [][]byte
@@ -243,10 +236,7 @@ func runSrv(t *testing.T, lg *go9p.Logger, s *srvSession, seg Seg, late bool) (o
 	}()
 	synctest.Test(t, func(t *testing.T) {
 		var mu sync.Mutex
-		ctl := srvh.NewCtl()
-		ctl.Gated = false
-		ops := &srvh.Ops{C: ctl}
-		ctl.Ops = ops
+		ops := &scriptedOps{}
 		gates := map[uint16]chan struct{}{}
 		if late {
 			for _, mg := range s.msgs {
@@ -255,13 +245,13 @@ func runSrv(t *testing.T, lg *go9p.Logger, s *srvSession, seg Seg, late bool) (o
 				}
 			}
 		}
-		ops.Decide = func(op string, r *go9p.SrvReq) srvh.Cmd {
+		ops.Decide = func(op string, r *go9p.SrvReq) Cmd {
 			tc := r.Tc
 			if tc.Tag < bodyTag0 {
 				if op == "attach" {
-					return srvh.Cmd{Out: "ok", QType: go9p.QTDIR, Payload: 1}
+					return Cmd{Out: "ok", QType: go9p.QTDIR, Payload: 1}
 				}
-				return srvh.Cmd{Out: "ok", QType: 0, Payload: 2}
+				return Cmd{Out: "ok", QType: 0, Payload: 2}
 			}
 			rec := &callRec{Op: op, Tag: tc.Tag, Fid: tc.Fid}
 			switch op {
@@ -281,7 +271,7 @@ func runSrv(t *testing.T, lg *go9p.Logger, s *srvSession, seg Seg, late bool) (o
 			if g != nil {
 				<-g
 			}
-			cmd := srvh.Cmd{Out: "ok"}
+			cmd := Cmd{Out: "ok"}
 			switch op {
 			case "write":
 				rec.DataRel = append([]byte(nil), tc.Data...)
@@ -294,8 +284,10 @@ func runSrv(t *testing.T, lg *go9p.Logger, s *srvSession, seg Seg, late bool) (o
 			return cmd
 		}
 		srv := &go9p.Srv{Log: lg, Dotu: s.cfg.Dotu, Msize: s.cfg.SrvMsize, Upool: users{}}
-		ctl.Start(srv, ops)
-		defer ctl.Stop()
+		if !srv.Start(ops) {
+			panic("Srv.Start refused the scripted implementation")
+		}
+		defer func() { go9p.VerifHook = nil }()
 		go9p.VerifHook = func(point string, conn *go9p.Conn, req *go9p.SrvReq, nums []int) {
 			switch point {
 			case "recv_read":
@@ -362,7 +354,19 @@ func runSrv(t *testing.T, lg *go9p.Logger, s *srvSession, seg Seg, late bool) (o
 			}
 		}
 		if obs.Stuck == "" {
-			if !send(s.starts[s.nsetup], len(s.stream)) {
+			lo := s.starts[s.nsetup]
+			if bc := Chunks(s.stream, lo, len(s.stream), seg.Cuts); len(bc) > 1 && len(bc) <= 9 {
+				// few writes: look at the server after each of them (a request must be executed when
+				// its last byte has arrived, not when later bytes arrive)
+				for _, c := range bc[:len(bc)-1] {
+					if !send(lo, lo+len(c)) {
+						break
+					}
+					lo += len(c)
+					obs.Progress = append(obs.Progress, [2]int{lo, len(obs.Arrivals)})
+				}
+			}
+			if !send(lo, len(s.stream)) {
 				mu.Lock()
 				if !obs.Closed {
 					obs.Stuck = "the server stopped reading the stream"
@@ -395,7 +399,8 @@ func runSrv(t *testing.T, lg *go9p.Logger, s *srvSession, seg Seg, late bool) (o
 // ---------------------------------------------------------------- verdicts
 
 type judge struct {
-	rep    *srvh.Report
+	leftovers int
+	rep    *Report
 	seen   map[string]int
 	side   string
 	replay func(seg Seg, mode string) any
@@ -406,7 +411,7 @@ func (j *judge) flag(key, what string, seg Seg, mode string) {
 	if j.seen[key] > 1 {
 		return
 	}
-	j.rep.Violations = append(j.rep.Violations, srvh.Violation{Key: key, What: what, Replay: j.replay(seg, mode)})
+	j.rep.Violations = append(j.rep.Violations, Violation{Key: key, What: what, Replay: j.replay(seg, mode)})
 }
 
 func decodeReply(f []byte, dotu bool) (*wire.Msg, error) { return wire.Decode(f, dotu) }
@@ -414,6 +419,14 @@ func decodeReply(f []byte, dotu bool) (*wire.Msg, error) { return wire.Decode(f,
 // judgeSrv compares one run with what the specification predicts for the stream (the first
 // `predicted` messages, each once, in order, intact) and with the unsplit run.
 func judgeSrv(j *judge, s *srvSession, o, base *srvObs, seg Seg, mode string) {
+	if o.Leftover != "" {
+		j.leftovers++
+		if !strings.Contains(o.Leftover, "blocked goroutines remain") {
+			// the bubble did not run to its end (a panic in the harness itself): no verdict from this case
+			j.rep.Inconclusive = append(j.rep.Inconclusive, "case aborted inside the bubble: "+o.Leftover)
+			return
+		}
+	}
 	ctx := fmt.Sprintf("msize %d, %s, segmentation %s with %d cuts", s.msize, mode, seg.Class, len(seg.Cuts))
 	bad := s.cfg.Bad
 	sfx := fmt.Sprintf(":seg=%s:mode=%s", seg.Class, mode)
@@ -436,6 +449,16 @@ func judgeSrv(j *judge, s *srvSession, o, base *srvObs, seg Seg, mode string) {
 		}
 		j.flag("srv:requests-differ"+sfx, fmt.Sprintf("the server parsed %d requests, the stream holds %d legal ones; first difference at request %d (%s)",
 			len(o.Arrivals), len(want), i, ctx), seg, mode)
+	}
+	for _, pr := range o.Progress {
+		n := 0
+		for n < s.predicted && s.starts[n+1] <= pr[0] {
+			n++
+		}
+		if pr[1] != n {
+			j.flag("srv:request-delayed"+sfx, fmt.Sprintf("after the first %d bytes of the stream had been written and the server had gone quiet it had parsed %d requests; %d whole requests lie in those bytes (%s)", pr[0], pr[1], n, ctx), seg, mode)
+			break
+		}
 	}
 	calls := map[uint16][]*callRec{}
 	for _, c := range o.Calls {
@@ -579,9 +602,9 @@ func srvPlans(tier string, seed int64) []srvPlan {
 	var ps []srvPlan
 	if tier == "quick" {
 		ps = []srvPlan{
-			{SrvCfg{SrvMsize: rm(90, 160), CliMsize: 64, StreamSeed: ss(1), Bytes: 1300}, 2000, 9},
-			{SrvCfg{SrvMsize: rm(65, 130), CliMsize: 8192, Dotu: true, StreamSeed: ss(2), Bytes: 1500}, 2000, 9},
-			{SrvCfg{SrvMsize: 8192, CliMsize: rm(200, 600), StreamSeed: ss(3), Bytes: 9000}, 250, 9},
+			{SrvCfg{SrvMsize: rm(90, 160), CliMsize: 64, StreamSeed: ss(1), Bytes: 1300}, 900, 9},
+			{SrvCfg{SrvMsize: rm(65, 130), CliMsize: 8192, Dotu: true, StreamSeed: ss(2), Bytes: 1500}, 900, 9},
+			{SrvCfg{SrvMsize: 8192, CliMsize: rm(200, 600), StreamSeed: ss(3), Bytes: 9000}, 150, 9},
 			{SrvCfg{SrvMsize: 4096, CliMsize: 4096, Dotu: true, StreamSeed: ss(4), Bytes: 80000}, 40, 6},
 			{SrvCfg{SrvMsize: 64, CliMsize: 64, StreamSeed: ss(5), Bytes: 700, Bad: "over1", BadAt: 9}, 400, 6},
 			{SrvCfg{SrvMsize: 128, CliMsize: 100, StreamSeed: ss(6), Bytes: 700, Bad: "overhuge", BadAt: 6}, 400, 6},
@@ -617,7 +640,7 @@ func TestSrvSweep(t *testing.T) {
 		tier = "quick"
 	}
 	lg := go9p.NewLogger(8)
-	rep := &srvh.Report{Engine: "recv-srv-sweep", Stats: map[string]any{}, Violations: []srvh.Violation{}, Inconclusive: []string{}, Samples: []any{}}
+	rep := newReport("recv-srv-sweep")
 	sink := newTraceSink(os.Getenv("VERIF_TRACE_OUT"), envInt("VERIF_TRACE_LINES", 60000))
 	defer sink.close()
 	plans := srvPlans(tier, seed)
@@ -645,7 +668,7 @@ func TestSrvSweep(t *testing.T) {
 		return
 	}
 	classes := map[string]int{}
-	reallocs := 0
+	reallocs, leftovers := 0, 0
 	msgsTotal := 0
 	perCfg := sink.budget / max(1, len(plans))
 	caseID := 0
@@ -660,11 +683,12 @@ func TestSrvSweep(t *testing.T) {
 		segs := Plans(s.starts, s.starts[s.nsetup], rng, p.MaxSingle, p.NRandom)
 		bases := map[string]*srvObs{}
 		for _, mode := range []string{"late", "eager"} {
+			progress(map[string]any{"engine": "srv", "cfg": cfg, "seg": Seg{Class: "unsplit"}, "mode": mode})
 			b := runSrv(t, lg, s, Seg{Class: "unsplit"}, mode == "late")
 			bases[mode] = b
-			if b.Stuck != "" {
-				rep.Inconclusive = append(rep.Inconclusive, fmt.Sprintf("unsplit baseline stuck: %s (cfg %s)", b.Stuck, jsonStr(cfg)))
-			}
+			judgeSrv(j, s, b, nil, Seg{Class: "unsplit"}, mode)
+			rep.Cases++
+			classes["unsplit"]++
 		}
 		if bases["late"].Stuck != "" {
 			continue
@@ -682,7 +706,7 @@ func TestSrvSweep(t *testing.T) {
 				nsingle++
 			}
 		}
-		singleSeen := 0
+		singleSeen, longTraced := 0, 0
 		for si, sg := range segs {
 			modes := []string{"late"}
 			if cfg.Bad != "" {
@@ -691,6 +715,7 @@ func TestSrvSweep(t *testing.T) {
 				modes = []string{"late", "eager"}
 			}
 			for _, mode := range modes {
+				progress(map[string]any{"engine": "srv", "cfg": cfg, "seg": sg, "mode": mode})
 				o := runSrv(t, lg, s, sg, mode == "late")
 				judgeSrv(j, s, o, bases[mode], sg, mode)
 				rep.Cases++
@@ -706,7 +731,11 @@ func TestSrvSweep(t *testing.T) {
 					stride := max(1, nsingle/40)
 					want = singleSeen%stride == 0
 				}
+				if len(s.frames) > 600 { // long streams make every TLC state big: a few cases only
+					want = want && sg.Class != "bytes" && longTraced < 4
+				}
 				if want && sink.lines+len(o.Trace)+2 <= traceBudgetEnd && sink.room(len(o.Trace)) {
+					longTraced++
 					caseID++
 					sink.put(caseID, int(cfg.SrvMsize), 8*int(cfg.SrvMsize), s.frames, o.Trace, o.Closed, len(o.Arrivals))
 				}
@@ -726,6 +755,7 @@ func TestSrvSweep(t *testing.T) {
 		for k, n := range j.seen {
 			rep.Stats["count:"+k] = n
 		}
+		leftovers += j.leftovers
 		if len(rep.Samples) < 6 {
 			o := bases["late"]
 			rep.Samples = append(rep.Samples, map[string]any{"cfg": cfg, "msize": s.msize, "messages": len(s.msgs), "stream_bytes": len(s.stream),
@@ -740,6 +770,7 @@ func TestSrvSweep(t *testing.T) {
 	rep.Stats["trace_cases"] = sink.cases
 	rep.Stats["trace_lines"] = sink.lines
 	rep.Stats["c12_notes"] = c12notes
+	rep.Stats["cases_ending_with_blocked_library_goroutines"] = leftovers
 	if err := rep.Write(); err != nil {
 		t.Fatal(err)
 	}
